@@ -17,7 +17,7 @@ def _err(out):
 
 def _errs(op, out):
     """error codes of the update(s) of one trace line (a UC line carries two: E ... V ...)"""
-    if not op or op[0] not in ("H", "U", "UB", "UC"):
+    if not op or op[0] not in ("H", "U", "UR", "UB", "UC"):
         return []
     codes = [_err(out)]
     if op[0] == "UC" and "V" in out:
@@ -69,6 +69,10 @@ GEN = ("histories = corpus (witnesses of G2, G3, G4 + ordinary reconfigurations 
        "READY again, then the dial is released; the UB line is recorded when all monitors are back in WaitForStateChange and "
        "every MultiEndpoint shows the pool's final readiness (bounded by 3 s; given up 0.5 s after every monitor is idle with "
        "the report still missing), followed by a P line; "
+       "VERIF_READY dedicated scenarios (and ~8% of the operations of live histories) are updates (UR) whose DialFunc, for "
+       "endpoints whose server is up, returns the new ClientConn only when it is READY (like grpc.WithBlock(); dial code 2), "
+       "so that the pool is READY when it is registered and stays READY; the line is recorded when all monitors are idle and "
+       "every MultiEndpoint shows it (same bounds as UB), followed by a P line per such endpoint; "
        "VERIF_CONC dedicated scenarios (and ~8% of the operations of every history) are PAIRS of updates (UC): the first "
        "DialFunc call of update 1 blocks; update 2 (replacing / shrinking / reverting / renaming / invalid options) is started "
        "in a second goroutine and is parked on gme.mu inside UpdateMultiEndpoints (goroutine stacks) or has returned when the "
@@ -91,14 +95,14 @@ class GMEEngine(engines.HistEngine):
     props = {
         "C15": dict(monitor="c15",
                     rel={"route", "pools", "dial", "mes", "default", "call", "open", "census", "badop"},
-                    quick=dict(VERIF_N="700", VERIF_MAXOPS="10", VERIF_LIVE="20", VERIF_FLAP="60", VERIF_CONC="60"),
-                    thorough=dict(VERIF_N="30000", VERIF_MAXOPS="16", VERIF_LIVE="25", VERIF_FLAP="1500", VERIF_CONC="1500"),
+                    quick=dict(VERIF_N="700", VERIF_MAXOPS="10", VERIF_LIVE="20", VERIF_FLAP="60", VERIF_CONC="60", VERIF_READY="40"),
+                    thorough=dict(VERIF_N="30000", VERIF_MAXOPS="16", VERIF_LIVE="25", VERIF_FLAP="1500", VERIF_CONC="1500", VERIF_READY="1000"),
                     nontrivial=gme_nontrivial_c15,
                     rule=GEN + "non-trivial = at least two accepted configurations, or one plus a connectivity change / RPC"),
         "C16": dict(monitor="c16",
                     rel={"error", "route", "pools", "dial", "mes", "default", "open", "census", "badop"},
-                    quick=dict(VERIF_N="700", VERIF_MAXOPS="10", VERIF_LIVE="20", VERIF_FLAP="60", VERIF_CONC="60"),
-                    thorough=dict(VERIF_N="30000", VERIF_MAXOPS="16", VERIF_LIVE="25", VERIF_FLAP="1500", VERIF_CONC="1500"),
+                    quick=dict(VERIF_N="700", VERIF_MAXOPS="10", VERIF_LIVE="20", VERIF_FLAP="60", VERIF_CONC="60", VERIF_READY="40"),
+                    thorough=dict(VERIF_N="30000", VERIF_MAXOPS="16", VERIF_LIVE="25", VERIF_FLAP="1500", VERIF_CONC="1500", VERIF_READY="1000"),
                     nontrivial=gme_nontrivial_c16,
                     rule=GEN + "non-trivial = the history contains a rejected construction/update or a Close"),
     }
@@ -141,6 +145,9 @@ _COMMON = [
     "end of the update, stale outage report, recovery report; with zero delays Current() is again the top available endpoint); "
     "the harness records the UB line only when all monitors are idle again, so the transient states are not observed and a "
     "LOST recovery report shows as a failure of the C15 clauses update_status_synced (UB line) and follows_connectivity (P line)",
+    "the readiness a new pool has when DialFunc returns it is an input of the model's update (GUpdate .. readys, read from "
+    "the dial log code 2, like the dial order); status sync covers new pools too (update_status_synced); the harness lets a "
+    "new pool be READY at registration only in UR updates, otherwise new pools connect after the update line was recorded",
     "a UC line (two overlapping updates) is two model events GUpdate o1; GUpdate o2 (update 2 is ordered after update 1 "
     "because it arrived while update 1 held gme.mu); the observation BETWEEN the two does not exist in the implementation "
     "and is supplied by the driver from the extracted model (gobs_norm (gobserve (gstep ..))), so the first event of the "
